@@ -141,7 +141,7 @@ def change_lists(fam):
     # one link letter per (class, attr), two list letters per (class, attr)
     seenl, link_sel = set(), []
     for e in links:
-        k = (w["objects"][e[1]]["cls"], e[2])
+        k = (w["objects"][e[1]]["cls"], e[2]) if e[2] != "country" else (w["objects"][e[1]]["cls"], e[2], e[3])
         if k not in seenl:
             seenl.add(k)
             link_sel.append(e)
